@@ -21,11 +21,22 @@ def grad_matches(f, x, k, g, h=None, rtol=2e-5, atol=1e-6):
         y = x.copy()
         y[k] = t
         return float(f(y))
-    try:
-        est, err = richardson(line, x[k], hk)
-    except Exception:
-        return True, None
-    if not (math.isfinite(est) and math.isfinite(g)):
-        return True, None      # undecidable by finite differences; not evidence of failure
-    tol = atol + rtol * max(abs(est), abs(g)) + 10 * err
-    return abs(est - g) <= tol, est
+    first = None
+    # a ladder of step sizes: where the function bends strongly on the scale of the first step (e.g. log of a
+    # quantity comparable to the step) the estimate converges only for the smaller ones; a wrong derivative
+    # matches none of them
+    for hh in (hk, hk / 8, hk / 64):
+        try:
+            est, err = richardson(line, x[k], hh)
+        except Exception:
+            return True, None
+        if not (math.isfinite(est) and math.isfinite(g)):
+            if first is None:
+                return True, None      # undecidable by finite differences; not evidence of failure
+            continue
+        if first is None:
+            first = est
+        tol = atol + rtol * max(abs(est), abs(g)) + 10 * err
+        if abs(est - g) <= tol:
+            return True, est
+    return False, first
